@@ -10,7 +10,7 @@ namespace PV
 open TokenRing C05
 
 /-- Number of the attempt: 1, 2, 3. -/
-def Attempt.num : Attempt → Nat
+def Attempt.ord : Attempt → Nat
   | .first => 1 | .second => 2 | .third => 3
 
 /-- **Stage of a pass**: how many times the token has been transmitted to the current successor in the
@@ -21,7 +21,7 @@ is being watched.  `PassToken(false, second/third)`: a slot time has expired in 
 the FIRST transmission to a (new) successor, and `PassToken(true, second/third)`, which no handler
 enters — has stage 0: no pass is being supervised. -/
 def sent : FState → Nat
-  | .checkTokenPass att => att.num
+  | .checkTokenPass att => att.ord
   | .passToken false .second => 1
   | .passToken false .third => 2
   | _ => 0
@@ -31,7 +31,7 @@ def tokenTo (ts ns : Nat) : Bytes := sendToken (UInt8.ofNat ns) (UInt8.ofNat ts)
 
 theorem sent_le_three (st : FState) : sent st ≤ 3 := by
   cases st with
-  | checkTokenPass att => cases att <;> simp [sent, Attempt.num]
+  | checkTokenPass att => cases att <;> simp [sent, Attempt.ord]
   | passToken g att => cases g <;> cases att <;> simp [sent]
   | _ => simp [sent]
 
@@ -150,14 +150,14 @@ theorem pass_step (s : Station) (apps : Apps) (now : Int) (phy : Bool) (rx : Byt
       · subst ha ha' hr0
         rcases hpost with ⟨h1, h2, h3⟩ | ⟨h1, h2, h3⟩
         · exact .wait (by rw [h1, hst]; rfl) h2 h3
-        · refine .retry (by rw [hst]; simp [sent, Attempt.num]) ?_ h1 h3
+        · refine .retry (by rw [hst]; simp [sent, Attempt.ord]) ?_ h1 h3
           rcases h2 with h2 | h2
           · exact .inr h2
           · exact .inl (by rw [h2, hst]; rfl)
       · subst ha ha' hr0
         rcases hpost with ⟨h1, h2, h3⟩ | ⟨h1, h2, h3⟩
         · exact .wait (by rw [h1, hst]; rfl) h2 h3
-        · refine .retry (by rw [hst]; simp [sent, Attempt.num]) ?_ h1 h3
+        · refine .retry (by rw [hst]; simp [sent, Attempt.ord]) ?_ h1 h3
           rcases h2 with h2 | h2
           · exact .inr h2
           · exact .inl (by rw [h2, hst]; rfl)
@@ -168,14 +168,14 @@ theorem pass_step (s : Station) (apps : Apps) (now : Int) (phy : Bool) (rx : Byt
   · rcases passTok_poll s apps now phy rx c' h false .second hst with ⟨h1, h2, h3⟩ | ⟨h1, h2, h3⟩ | ⟨h1, h2, h3⟩
     · exact .wait (by rw [h1, hst]) h2 h3
     · cases h1
-    · refine .retry (by rw [hst]; simp [sent, Attempt.num]) ?_ h1 h3
+    · refine .retry (by rw [hst]; simp [sent, Attempt.ord]) ?_ h1 h3
       rcases h2 with h2 | h2
       · exact .inr h2
       · exact .inl (by rw [h2, hst]; rfl)
   · rcases passTok_poll s apps now phy rx c' h false .third hst with ⟨h1, h2, h3⟩ | ⟨h1, h2, h3⟩ | ⟨h1, h2, h3⟩
     · exact .wait (by rw [h1, hst]) h2 h3
     · cases h1
-    · refine .retry (by rw [hst]; simp [sent, Attempt.num]) ?_ h1 h3
+    · refine .retry (by rw [hst]; simp [sent, Attempt.ord]) ?_ h1 h3
       rcases h2 with h2 | h2
       · exact .inr h2
       · exact .inl (by rw [h2, hst]; rfl)
@@ -253,7 +253,7 @@ theorem sameRun_step {w w1 : World} {i : PollIn} {tx : Option Bytes}
   · omega
   · exfalso
     rw [hst] at hmono
-    rcases e with ⟨e1, -⟩ | ⟨-, e1 | e1, -⟩ <;> rw [e1] at hmono <;> simp [sent, Attempt.num] at hmono
+    rcases e with ⟨e1, -⟩ | ⟨-, e1 | e1, -⟩ <;> rw [e1] at hmono <;> simp [sent, Attempt.ord] at hmono
 
 /-- **`passCount_run`** — the counter invariant over a whole run inside one pass: the stage at the end
 is the stage at the start plus the number of transmissions in the run; every transmission is the token
